@@ -17,6 +17,13 @@ From DesVerif Require Import Timer.Driver Timer.QueueLemmas Timer.Inv Timer.Exac
 Import ListNotations.
 Open Scope N_scope.
 
+(* proves  Forall (fun tk => Forall frag_step .. /\ Forall (< TMAX) (expected tk)) (decode <concrete script>)  *)
+Ltac init_ok_by_computation :=
+  match goal with |- Forall _ ?e => let v := eval vm_compute in e in change e with v end;
+  repeat (apply Forall_cons || apply Forall_nil || split);
+  try (match goal with |- Forall _ ?e => let v := eval vm_compute in e in change e with v end; repeat constructor);
+  try exact I; try reflexivity.
+
 (* Inv_wake (with the bookkeeping facts that make it inductive: slots sorted, live slots in
    the future, next_wakeup is a scheduled wake-up) is preserved by every event, whatever the
    tasks do to their timers during it. *)
@@ -153,6 +160,27 @@ Theorem C05_composite_sleep_prefix : forall ts, Forall init_ok ts -> forall n,
   Forall2 (fun tk0 tk => exists rest, exp_run (t_start tk0) (t_steps tk0) = t_log tk ++ rest) ts (w_tasks w).
 Proof. exact composite_sleep_prefix. Qed.
 Print Assumptions C05_composite_sleep_prefix.
+
+(* (1) reset and drop of registered sleeps are part of the proved fragment: a pinned Sleep that
+   is created, polled (registered) and reset is awaited until exactly its NEW deadline; a pinned
+   Sleep that is polled and dropped costs no time; in both cases the timers of all other tasks
+   still fire at exactly their deadlines, although the driver now holds emptied slots (the
+   fresh id makes the removal hit the right entry: Timer/TempOps.v; Inv_wake covers the
+   emptied slots).  Durations are finite (< FARK = 2^61 ns; FARK and above stands for
+   Duration::MAX, which the correspondence check covers). *)
+Theorem C05_composite_reset_drop_exact :
+  (forall p d1 d2, d1 < FARK -> d2 < FARK -> frag_step (SReset p d1 d2)) /\
+  (forall d, d < FARK -> frag_step (SDropSleep d)) /\
+  (forall now p d1 d2 r, exp_run now (SReset p d1 d2 :: r) = (now + d2) :: exp_run (now + d2) r) /\
+  (forall now d r, exp_run now (SDropSleep d :: r) = now :: exp_run now r) /\
+  (forall ts, Forall init_ok ts ->
+     exists w, run_tasks true ts = (w, true) /\
+       Forall2 (fun tk0 tk => t_fin tk = true /\ t_log tk = exp_run (t_start tk0) (t_steps tk0)) ts (w_tasks w)).
+Proof.
+  split; [intros p d1 d2 H1 H2; split; assumption|]. split; [intros d H; exact H|].
+  split; [reflexivity|]. split; [reflexivity|exact composite_sleep_exact].
+Qed.
+Print Assumptions C05_composite_reset_drop_exact.
 
 Theorem C05_fragment_scripts_decode_ok : forall input,
   Forall (fun tk => Forall frag_step (t_steps tk) /\ Forall (fun x => x < TMAX) (exp_run (t_start tk) (t_steps tk))) (decode input) ->
@@ -330,3 +358,17 @@ Example C05_nonvacuous_keepalive_equal_deadlines :
                         10; 0; 0; 1; 3; 13; 1; 2305843009213693952; 10; 50; 5])
   = [4; 3; 7; 1; 27; 1;  3; 3; 13; 0; 1;  1; 27; 0].
 Proof. vm_compute. reflexivity. Qed.
+
+(* non-vacuity of (1): three tasks on two modules; task 0 resets a polled sleep(5) to now + 10,
+   drops a polled sleep(5), sleeps 10; task 1 (spawned by a message at 3) drops, resets 20 -> 7,
+   logs; task 2 sleeps 10, resets an unpolled sleep to now + 0 and a polled one 4 -> 4.  The script
+   satisfies the theorem's hypothesis and the model's run gives the demanded logs. *)
+Example C05_nonvacuous_reset_drop :
+  let script := [1; 3; 10; 0; 0; 6; 1; 5; 10; 7; 5; 1; 10; 9; 0; 3; 7; 7; 6; 1; 20; 7; 8; 12; 1; 0; 1; 10; 6; 0; 3; 0; 6; 1; 4; 4] in
+  Forall init_ok (decode script) /\
+  map (fun tk => exp_run (t_start tk) (t_steps tk)) (decode script) = [[10; 10; 20]; [3; 10; 10]; [10; 10; 14]] /\
+  firstn 17 (run script) = [3; 10; 10; 20; 1;  3; 3; 10; 10; 1;  3; 10; 10; 14; 1;  1; 20].
+Proof.
+  cbn zeta. split; [|vm_compute; split; reflexivity].
+  apply decode_init_ok. init_ok_by_computation.
+Qed.
